@@ -1,0 +1,77 @@
+//! C08: replicas converge.
+//!
+//! `apply_entry` runs the consumer's per-entry decision of incremental replication
+//! (`Entry::is_add_conflict`, then `resolve_add_conflict` or `merge_state`, see
+//! `Entry::verif_c08_apply` at the end of entry.rs) on two entries given as explicit parts
+//! (change state + attribute map, the plain mirror types of C12), so that every arm
+//! (live/live, tombstone arms, uuid conflicts with and without a conflict copy) can be
+//! exercised on arbitrary change states.
+
+use super::c12::{HookEntry, HookState};
+use crate::entry::Eattrs;
+use crate::prelude::*;
+use crate::repl::entry::{EntryChangeState, State};
+use crate::schema::SchemaTransaction;
+
+pub struct Applied {
+    pub add_conflict: bool,
+    pub copy: Option<(Uuid, HookEntry)>,
+    pub result: HookEntry,
+}
+
+fn to_parts(e: &HookEntry) -> (EntryChangeState, Eattrs) {
+    let st = match &e.state {
+        HookState::Live { at, changes } => State::Live {
+            at: at.clone(),
+            changes: changes.iter().cloned().collect(),
+        },
+        HookState::Tombstone { at } => State::Tombstone { at: at.clone() },
+    };
+    let mut eattrs = Eattrs::default();
+    for (a, v) in e.attrs.iter() {
+        eattrs.insert(a.clone(), v.clone());
+    }
+    (EntryChangeState::build(st), eattrs)
+}
+
+fn from_parts(ecs: &EntryChangeState, attrs: &Eattrs) -> HookEntry {
+    let state = match ecs.current() {
+        State::Live { at, changes } => HookState::Live {
+            at: at.clone(),
+            changes: changes
+                .iter()
+                .map(|(a, c)| (a.clone(), c.clone()))
+                .collect(),
+        },
+        State::Tombstone { at } => HookState::Tombstone { at: at.clone() },
+    };
+    HookEntry {
+        state,
+        attrs: attrs.iter().map(|(a, v)| (a.clone(), v.clone())).collect(),
+    }
+}
+
+/// `incoming` plays the replicated entry, `db` the entry in the consumer's database, `cid`
+/// the consumer's transaction change id (its `s_uuid` decides who mints a conflict copy).
+pub fn apply_entry(
+    uuid: Uuid,
+    incoming: &HookEntry,
+    db: &HookEntry,
+    cid: &Cid,
+    schema: &dyn SchemaTransaction,
+    trim_cid: &Cid,
+) -> Applied {
+    let (add_conflict, copy, res) = EntryIncrementalNew::verif_c08_apply(
+        uuid,
+        to_parts(incoming),
+        to_parts(db),
+        cid,
+        schema,
+        trim_cid,
+    );
+    Applied {
+        add_conflict,
+        copy: copy.map(|(u, ecs, attrs)| (u, from_parts(&ecs, &attrs))),
+        result: from_parts(&res.0, &res.1),
+    }
+}
